@@ -62,7 +62,7 @@ def draw_config(rng: random.Random, prop: str) -> dict:
         cfg['fs_pool'] = rng.choice([[], [], ['vx_wide'], ['vx_p'], ['vx_o'], ['vx_p', 'vx_o']])
         cfg['species_mode'] = 'first_k'
         cfg['layout'] = rng.choices(['single', 'assoc', 'mem'], [0.5, 0.3, 0.2])[0]
-        w.update(get=10, open_a=3)
+        w.update(get=10, open_a=3, dup_create=0.6)
     elif prop == 'C08':
         cfg['fs_pool'] = rng.choice([[], [], ['vx_t'], ['vx_o']])
         cfg['species_mode'] = 'first_k'
@@ -122,6 +122,12 @@ class Gen:
             self.script = self.merge_scenario()
         if self.script is None and rng.random() < {'C03': 0.12, 'C09': 0.1}.get(cfg['prop'], 0.0):
             self.script = self.override_scenario()
+        if self.script is None and cfg['prop'] == 'C10' and rng.random() < 0.25:
+            self.script = self.assoc_reject_scenario()
+        self.late = False
+        if self.script is None and cfg['prop'] == 'C03' and rng.random() < 0.08:
+            self.late = True
+            self.script = iter([{'op': 'register_late', 'ask': rng.choice(['known', 'trajectory', 'registry'])}])
 
     # ---- scripted scenarios (ops are still validated and recorded one by one)
     def merge_scenario(self):
@@ -205,6 +211,8 @@ class Gen:
             mop.update(op='merge_sweep', crash_seed=rng.randint(0, 10 ** 9))
         else:
             mop['op'] = 'merge'
+            if 'pattern' not in mop and not self.groups[gid]['n_assoc'] and rng.random() < (0.6 if prop == 'C10' else 0.25):
+                mop['links'] = {'same_target_name': rng.random() < 0.5}
         yield mop
         # associated files of the parts merged separately
         g = self.groups[gid]
@@ -231,6 +239,51 @@ class Gen:
                 yield {'op': 'lookup', 'sess': sid, 'fid': fid}
             if rng.random() < 0.5:
                 yield {'op': 'iter', 'sess': sid}
+
+    def assoc_reject_scenario(self):
+        """Rejected additions to a store whose values are split over base and associated files,
+        in the creating session and after reopening it for appending."""
+        rng = self.rng
+        gid = self.new_group()
+        g = self.groups[gid]
+        with_req = [x for x in G.EXTRA_SETS if any(req for _f, _d, _t, req in G.FIELDS[x]) and x != 'vx_wide']
+        fs = rng.sample(with_req, rng.randint(1, 2))
+        if rng.random() < 0.4:
+            fs = [rng.choice([x for x in G.EXTRA_SETS if x not in fs and x != 'vx_wide'])] + fs
+        g.update(fs=fs, n_assoc=rng.randint(1, min(2, len(fs))), layout='assoc', subdirs=False)
+        op = self._create_in_group(gid, force_file=True)
+        yield op
+        sid = op['sess']
+        fname = op['file']
+        for phase in ('create', 'append'):
+            sess = self.sim.sessions.get(sid)
+            if sess is None:
+                return
+            f = sess.file
+            for _ in range(rng.randint(2, 5)):
+                r = rng.random()
+                if r < 0.5:
+                    ident = f.ident if f.exists else rng.choice([None, True, False])
+                    spec = self.traj_spec(gid, first_of_file=not f.exists, fs=list(f.all_fs), ident=ident)
+                    assoc_req = [fld for _a, lst in f.assoc for x in lst for fld, _d, _t, req in G.FIELDS[x] if req]
+                    cand = assoc_req if assoc_req and rng.random() < 0.8 else G.required_fields(list(f.all_fs))
+                    spec['set_none'] = [rng.choice(cand)]
+                    yield {'op': 'add_invalid', 'sess': sid, 'kind': 'required_none', 'traj': spec}
+                else:
+                    yield {'op': 'add', 'sess': sid,
+                           'traj': self.traj_spec(gid, first_of_file=not f.exists, fs=list(sess.visible_fs),
+                                                  file=f, new_species=False)}
+                if rng.random() < 0.3 and self.sim._rows(sess):
+                    yield {'op': 'get', 'sess': sid, 'idx': rng.randrange(len(self.sim._rows(sess)))}
+            yield {'op': 'close', 'sess': sid, 'how': rng.choice(['close', 'exit'])}
+            f = self.sim.files.get(fname)
+            if f is None or not f.exists:
+                return
+            if phase == 'create':
+                sid = self.new_sid()
+                yield self._open_forms({'op': 'open', 'sess': sid, 'file': fname, 'mode': 'a',
+                                        'cache': self.pick_cache()})
+        yield {'op': 'fsck', 'file': fname, 'cache': rng.choice([1, 2048])}
 
     def override_scenario(self):
         """A field set the store already has is recomputed into an associated file by
@@ -356,6 +409,8 @@ class Gen:
             fs = rng.sample(pool, k)
         if self.cfg.get('same_fs') and self.groups:
             fs = list(self.groups[0]['fs'])
+        if getattr(self, 'late', False) and rng.random() < 0.7:
+            fs = [x for x in fs if x != 'vx_wide'][:2] + ['vx_late']
         ident = {'all': True, 'none': False, 'per_group': rng.random() < 0.5}[self.cfg['ids']]
         if self.cfg['ids'] == 'per_group' and self.cfg.get('same_fs') and self.groups:
             ident = not self.groups[gid - 1]['ident']
@@ -426,7 +481,10 @@ class Gen:
         self.cs += 1
         spec = {'n': n, 'cs': self.cs * 7919 + rng.randint(0, 1000), 'fs': fs}
         ident = g['ident'] if ident is None else ident
-        spec['fid'] = self.next_id(gid) if ident else None
+        if ident and getattr(self, 'reserved', {}).get(gid):
+            spec['fid'] = self.reserved[gid].pop(0)     # an identifier that was looked up (absent) earlier
+        else:
+            spec['fid'] = self.next_id(gid) if ident else None
         if rng.random() < self.cfg['extreme_p']:
             spec['extreme'] = True
         sf = G.species_fields(fs)
@@ -525,6 +583,10 @@ class Gen:
             cands.append(('open_merged', w['open_merged']))
             cands.append(('append_merged', w['append_merged']))
             cands.append(('remove_merged', w.get('remove_merged', 0)))
+        if any(x.kind == 'merged' for x in open_sessions) and self.cfg['prop'] in ('C08', 'C09'):
+            cands.append(('assoc_merged', 1.5))
+        if sim.zombies and open_sessions:
+            cands.append(('close_again', 2.0))
         cands = [(k, x) for k, x in cands if x > 0]
         if not cands:
             return None
@@ -566,6 +628,19 @@ class Gen:
             return None
         gid = self._gid_of(sess)
         fs = sess.visible_fs if sess.kind != 'mem' else self.groups[gid]['fs']
+        last = sim.__dict__.get('last_added')
+        if (last is not None and sess.kind == 'create' and not rows and not sess.file.exists and not sess.file.assoc
+                and last['sid'] not in sim.sessions and sorted(last['spec'].get('fs', [])) == sorted(sess.file.all_fs)
+                and last['spec'].get('species') and last['spec']['n'] > 0 and rng.random() < 0.9):
+            # an object that went into another store before is given more species and added here
+            old = last['spec']['species']
+            more = {}
+            for fld, names in old.items():
+                extra = [x for x in G.SPECIES_NAMES if x not in names]
+                add = rng.sample(extra, min(len(extra), rng.randint(1, 2)))
+                more[fld] = sorted(list(names) + add, key=G.SPECIES_NAMES.index)
+            return {'op': 'add', 'sess': sess.sid, 'traj': dict(last['spec']),
+                    'reuse': {'species': more, 'cs': rng.randint(1, 10 ** 6)}}
         spec = self.traj_spec(gid, first_of_file=len(rows) == 0, fs=list(fs), file=sess.file)
         if sess.kind == 'mem':
             if self.cfg['regime'] != 'pressure':
@@ -638,6 +713,14 @@ class Gen:
         if ids and rng.random() < 0.75:
             # bias to the most recent additions (stale index) and to other parts
             fid = ids[-1] if rng.random() < 0.4 else rng.choice(ids)
+        elif ids and sess.writable and sess.kind != 'mem' and rng.random() < 0.4:
+            # "is this flight already there?" - asked before adding it: the identifier looked up now
+            # (absent) is the one a coming addition of this group will carry
+            gid = self._gid_of(sess)
+            if not hasattr(self, 'reserved'):
+                self.reserved = {}
+            fid = self.next_id(gid)
+            self.reserved.setdefault(gid, []).append(fid)
         else:
             fid = rng.choice([0, -1, 12345, rng.randint(-10 ** 6, 10 ** 6)] + [i + 1 for i in ids[:3]])
             if fid in ids:
@@ -662,7 +745,14 @@ class Gen:
             op['how'] = 'exit'
         elif r < 0.35:
             op['how'] = 'exit_exc'
+        if sess.kind != 'mem' and self.rng.random() < 0.2:
+            op['keep'] = True      # the caller keeps the closed object around (and may close it again)
         return op
+
+    def g_close_again(self):
+        if not self.sim.zombies:
+            return None
+        return {'op': 'close_again', 'k': self.rng.randrange(len(self.sim.zombies))}
 
     def g_close_all_one(self):
         ss = list(self.sim.sessions.values())
@@ -828,9 +918,12 @@ class Gen:
         if not ws:
             return None
         sess = rng.choice(ws)
+        with_assoc = [x for x in ws if x.file is not None and x.file.assoc]
+        if with_assoc and rng.random() < 0.5:
+            sess = rng.choice(with_assoc)      # values that live in associated files get their share
         f = sess.file
         gid = f.group
-        kinds = ['required_none']
+        kinds = ['required_none'] * (3 if f.assoc else 1)
         if f.exists:
             kinds += ['required_none', 'extra_fieldset', 'id_mismatch']
             if f.all_fs:
@@ -864,7 +957,7 @@ class Gen:
             cand = G.required_fields(fs)
             assoc_fs = [x for _a, lst in f.assoc for x in lst]
             assoc_req = [fld for x in assoc_fs for fld, _d, _t, req in G.FIELDS[x] if req]
-            if assoc_req and rng.random() < 0.5:
+            if assoc_req and rng.random() < 0.7:
                 cand = assoc_req          # a required value that lives in an associated file
             spec['set_none'] = [rng.choice(cand)]
         elif kind == 'extra_fieldset':
@@ -931,6 +1024,8 @@ class Gen:
         if idxs == list(range(idxs[0], idxs[0] + len(idxs))) and rng.random() < 0.5 \
                 and not self.groups[gid].get('subdirs'):
             op['pattern'] = {'pattern': f'g{gid}_{{index}}.nc', 'lo': idxs[0], 'hi': idxs[-1]}
+        elif not any(f.assoc or f.extra_assoc for f in chosen) and rng.random() < 0.2:
+            op['links'] = {'same_target_name': rng.random() < 0.5}
         return op
 
     def g_open_merged(self):
@@ -1011,6 +1106,19 @@ class Gen:
         for fid in rng.sample(ids, min(len(ids), 3)):
             yield {'op': 'lookup', 'sess': sid, 'fid': fid}
         yield {'op': 'close', 'sess': sid}
+
+    def g_assoc_merged(self):
+        rng = self.rng
+        ss = [x for x in self.sim.sessions.values() if x.kind == 'merged']
+        if not ss:
+            return None
+        sess = rng.choice(ss)
+        avail = [x for x in G.EXTRA_SETS if x not in sess.visible_fs and x not in ('vx_wide', 'emissions')]
+        if not avail:
+            return None
+        self.nmerged += 1
+        return {'op': 'assoc_merged', 'sess': sess.sid, 'file': f'mx{self.nmerged}.nc',
+                'fs': [rng.choice(avail)], 'fn_seed': rng.randint(1, 10 ** 6)}
 
     def g_append_merged(self):
         ms = [m for m in self.sim.merged.values() if m.kind == 'base' and m.complete]
